@@ -83,15 +83,19 @@ package bufiox
 //@ iface Writer.Malloc
 //@   params n
 //@   results buf, err
-//@   ensures err == nil ==> 0 <= n && len(buf) == n && writable(buf) && !isnil(buf) && wrGrew(self, n) && same(self.$lastchunk, buf)
-//@   ensures err != nil ==> isnil(buf) && wrSame(self)
+//@   ensures err == nil ==> 0 <= n && len(buf) == n && (n > 0 ==> writable(buf) && !isnil(buf)) && 0 <= old(self.$wlen) && self.$wlen <= 0x800000000000 && self.$wlen == old(self.$wlen) + n
+//@   ensures[ghostdef] err == nil ==> wrGrew(self, n) && same(self.$lastchunk, buf)
+//@   ensures err != nil ==> isnil(buf) && self.$wlen == old(self.$wlen)
+//@   ensures[ghostdef] err != nil ==> wrSame(self)
 //@   assigns self.$wlen, self.$nchunks, self.$lastchunk, self.$prevchunk
 
 //@ iface Writer.WriteBinary
 //@   params bs
 //@   results n, err
-//@   ensures err == nil ==> n == len(bs) && wrGrew(self, n) && eqbytes(self.$lastchunk, 0, bs, 0, n)
-//@   ensures err != nil ==> wrSame(self)
+//@   ensures err == nil ==> n == len(bs) && 0 <= old(self.$wlen) && self.$wlen <= 0x800000000000 && self.$wlen == old(self.$wlen) + n
+//@   ensures[ghostdef] err == nil ==> wrGrew(self, n) && eqbytes(self.$lastchunk, 0, bs, 0, n)
+//@   ensures err != nil ==> self.$wlen == old(self.$wlen)
+//@   ensures[ghostdef] err != nil ==> wrSame(self)
 //@   assigns self.$wlen, self.$nchunks, self.$lastchunk, self.$prevchunk
 
 //@ iface Writer.WrittenLen
@@ -100,7 +104,8 @@ package bufiox
 
 //@ iface Writer.Flush
 //@   results err
-//@   ensures err == nil ==> self.$wlen == 0 && self.$nchunks == 0
+//@   ensures err == nil ==> self.$wlen == 0
+//@   ensures[ghostdef] err == nil ==> self.$nchunks == 0
 //@   assigns self.$wlen, self.$nchunks, self.$lastchunk, self.$prevchunk
 
 // ---------------------------------------------------------------------------------------
@@ -258,3 +263,105 @@ package bufiox
 //@   props C04, C09
 //@   ensures fresh(ret) && ret.ri == 0 && (cap(buf) > 0 ==> same(ret.buf, buf) && ret.bufReadOnly) && (cap(buf) == 0 ==> isnil(ret.buf)) && isnil(ret.err) && !isnil(ret.rd) && len(ret.rd.$f) == 0
 //@   ensures[trusted] drInv(ret)
+
+// ---------------------------------------------------------------------------------------
+// io.Writer: the sink of a DefaultWriter. Ghost log of what it was handed:
+//   $nsunk    number of Write calls so far
+//   $sunk  the bytes passed to the most recent Write (snapshot at call time)
+
+//@ ghost $nsunk int
+//@ ghost $sunk string
+
+//@ iface io.Writer.Write
+//@   params p
+//@   results n, err
+//@   ensures[ghostdef] self.$nsunk == old(self.$nsunk) + 1 && len(self.$sunk) == len(p) && eqbytes(self.$sunk, 0, p, 0, len(p))
+//@   assigns self.$nsunk, self.$sunk
+
+// DefaultWriter. Stream position k of the unflushed data (0 <= k < len(buf)) is backed by
+// byte k of the first pending buffer that is longer than k, and by buf[k] when there is none:
+// growth never copies, it parks the old buffer (with its length at that time) in pendingBuf
+// and Flush stitches. The lengths of the pending buffers are non-decreasing and bounded by
+// len(buf); pending buffers and buf are different allocations.
+
+//@ pred wrInv(w) = !isnil(w.wd) && offset(w.pendingBuf) == 0 && (isnil(w.buf) || writable(w.buf)) && (isnil(w.buf) ==> len(w.pendingBuf) == 0) && (forall j int :: 0 <= j && j < len(w.pendingBuf) ==> allocated(w.pendingBuf[j]) && 0 <= len(w.pendingBuf[j]) && len(w.pendingBuf[j]) <= len(w.buf) && region(w.pendingBuf[j]) != region(w.buf)) && (forall i int :: forall j int :: 0 <= i && i <= j && j < len(w.pendingBuf) ==> len(w.pendingBuf[i]) <= len(w.pendingBuf[j]))
+//@ pred pbKept(w) = forall j int :: 0 <= j && j < old(len(w.pendingBuf)) ==> same(w.pendingBuf[j], old(w.pendingBuf[j]))
+//@ pred wrStays(w) = region(w.buf) == region(old(w.buf)) && offset(w.buf) == offset(old(w.buf)) && cap(w.buf) == cap(old(w.buf)) && len(w.pendingBuf) == old(len(w.pendingBuf)) && pbKept(w)
+//@ pred wrMoved(w) = fresh(w.buf) && writable(w.buf) && pbKept(w) && (cap(old(w.buf)) == 0 ? len(w.pendingBuf) == old(len(w.pendingBuf)) : len(w.pendingBuf) == old(len(w.pendingBuf)) + 1 && same(w.pendingBuf[old(len(w.pendingBuf))], old(w.buf)))
+
+//@ model DefaultWriter.$wlen = len(self.buf)
+
+//@ func DefaultWriter.acquireSlow
+//@   arith int
+//@   props C05, C09
+//@   requires wrInv(w) && 0 <= n && n <= 0x800000000000 && len(w.buf) + n > cap(w.buf)
+//@   ensures wrInv(w) && len(w.buf) == old(len(w.buf)) && len(w.buf) + n <= cap(w.buf) && wrMoved(w)
+//@   assigns w.buf, w.pendingBuf, w.pendingBuf[len(w.pendingBuf):cap(w.pendingBuf)]
+//@   loop 1 invariant 4096 <= maxSize && maxSize <= 0x1000000000000
+//@   loop 1 decreases n - maxSize
+//@   loop 2 invariant 2 <= ncap && ncap <= 0x2000000000000
+//@   loop 2 decreases n + len(w.buf) - ncap
+
+//@ func DefaultWriter.acquire
+//@   arith int
+//@   props C05, C09
+//@   requires wrInv(w) && 0 <= n && n <= 0x800000000000
+//@   ensures wrInv(w) && len(w.buf) == old(len(w.buf)) && len(w.buf) + n <= cap(w.buf) && (wrStays(w) || wrMoved(w))
+//@   assigns w.buf, w.pendingBuf, w.pendingBuf[len(w.pendingBuf):cap(w.pendingBuf)]
+
+//@ func DefaultWriter.Malloc
+//@   arith int
+//@   props C05, C09
+//@   refines Writer.Malloc
+//@   requires wrInv(w) && n <= 0x800000000000
+//@   ensures wrInv(w) && n <= 0x800000000000
+//@   ensures (err == nil) == (isnil(old(w.err)) && n >= 0)
+//@   ensures !isnil(old(w.err)) ==> same(err, old(w.err))
+//@   ensures err == nil ==> len(buf) == n && region(buf) == region(w.buf) && offset(buf) == offset(w.buf) + old(len(w.buf)) && len(w.buf) == old(len(w.buf)) + n && (wrStays(w) || wrMoved(w))
+//@   ensures err != nil ==> same(w.buf, old(w.buf)) && same(w.pendingBuf, old(w.pendingBuf))
+//@   assigns w.buf, w.pendingBuf, w.pendingBuf[len(w.pendingBuf):cap(w.pendingBuf)]
+
+//@ func DefaultWriter.WriteBinary
+//@   arith int
+//@   props C05, C09
+//@   refines Writer.WriteBinary
+//@   requires wrInv(w)
+//@   ensures wrInv(w)
+//@   ensures (err == nil) == isnil(old(w.err))
+//@   ensures !isnil(old(w.err)) ==> same(err, old(w.err)) && n == 0
+//@   ensures err == nil ==> n == len(bs) && len(w.buf) == old(len(w.buf)) + n && eqbytes(w.buf, old(len(w.buf)), old(snap(bs)), 0, n) && (wrStays(w) || wrMoved(w))
+//@   ensures err != nil ==> same(w.buf, old(w.buf)) && same(w.pendingBuf, old(w.pendingBuf))
+//@   assigns w.buf, w.pendingBuf, w.pendingBuf[len(w.pendingBuf):cap(w.pendingBuf)], w.buf[len(w.buf):cap(w.buf)]
+
+//@ func DefaultWriter.WrittenLen
+//@   arith int
+//@   props C05
+//@   refines Writer.WrittenLen
+//@   ensures ret == len(w.buf)
+
+// Flush: the sink is handed, in one Write, exactly the unflushed stream: position k holds the
+// current content of the byte that backs k (see above), whatever the caller stored there and
+// whenever. pbLo(w, j) is where the part backed by pending buffer j starts.
+
+//@ pred pbLo(w, j) = j <= 0 ? 0 : len(w.pendingBuf[j-1])
+//@ pred sunkPending(w) = forall j int :: 0 <= j && j < old(len(w.pendingBuf)) ==> eqbytes(w.wd.$sunk, old(pbLo(w, j)), old(snap(w.pendingBuf[j])), old(pbLo(w, j)), old(len(w.pendingBuf[j]) - pbLo(w, j)))
+//@ pred sunkBuf(w) = eqbytes(w.wd.$sunk, old(pbLo(w, len(w.pendingBuf))), old(snap(w.buf)), old(pbLo(w, len(w.pendingBuf))), old(len(w.buf) - pbLo(w, len(w.pendingBuf))))
+
+//@ func DefaultWriter.Flush
+//@   arith int
+//@   props C05, C09
+//@   refines Writer.Flush
+//@   requires wrInv(w)
+//@   ensures wrInv(w)
+//@   ensures !isnil(old(w.err)) ==> same(err, old(w.err)) && same(w.buf, old(w.buf)) && same(w.pendingBuf, old(w.pendingBuf)) && w.wd.$nsunk == old(w.wd.$nsunk)
+//@   ensures isnil(old(w.err)) && isnil(old(w.buf)) ==> err == nil && w.wd.$nsunk == old(w.wd.$nsunk)
+//@   ensures isnil(old(w.err)) && !isnil(old(w.buf)) ==> w.wd.$nsunk == old(w.wd.$nsunk) + 1 && len(w.wd.$sunk) == old(len(w.buf))
+//@   ensures isnil(old(w.err)) && !isnil(old(w.buf)) ==> sunkPending(w)
+//@   ensures isnil(old(w.err)) && !isnil(old(w.buf)) ==> sunkBuf(w)
+//@   ensures err == nil ==> isnil(w.buf) && len(w.pendingBuf) == 0
+//@   ensures err != nil && isnil(old(w.err)) ==> same(w.err, err) && same(w.buf, old(w.buf)) && same(w.pendingBuf, old(w.pendingBuf))
+//@   assigns w.buf, w.pendingBuf, w.err, w.maxSizeStats, w.buf[0:len(w.buf)], w.wd.$nsunk, w.wd.$sunk
+//@   loop 1 invariant -1 <= rangeindex && rangeindex < len(w.pendingBuf) && offset == pbLo(w, rangeindex + 1)
+//@   loop 1 invariant forall j int :: 0 <= j && j <= rangeindex ==> eqbytes(w.buf, pbLo(w, j), w.pendingBuf[j], pbLo(w, j), len(w.pendingBuf[j]) - pbLo(w, j))
+//@   loop 1 invariant eqbytes(w.buf, offset, old(snap(w.buf)), offset, len(w.buf) - offset)
+//@   loop 2 invariant true
